@@ -746,13 +746,20 @@ type SeqSpec struct {
 	Fill  uint64 `json:"fill,omitempty"`
 	N     int    `json:"n,omitempty"`
 	Alpha string `json:"alpha,omitempty"`
+	// Unit repeated Reps times follows (a homopolymer tract or tandem repeat)
+	Unit string `json:"unit,omitempty"`
+	Reps int    `json:"reps,omitempty"`
 }
 
 func (s SeqSpec) String() string {
+	out := s.Lit
 	if s.N > 0 && s.Alpha != "" {
-		return s.Lit + Fill(s.Fill, s.N, s.Alpha)
+		out += Fill(s.Fill, s.N, s.Alpha)
 	}
-	return s.Lit
+	if s.Reps > 0 && s.Unit != "" {
+		out += strings.Repeat(s.Unit, s.Reps)
+	}
+	return out
 }
 
 var tempDirFlip struct {
@@ -923,9 +930,30 @@ func DrawSize(t *rapid.T, name string, lo, hi int) int {
 }
 
 // DrawSeq draws a sequence over alpha with a length from DrawSize: short ones letter by letter (so
-// they shrink well), long ones as filler expanded from one 64-bit value.
+// they shrink well), long ones as filler expanded from one 64-bit value. One in six has low complexity, as
+// real sequences do: a homopolymer or a tandem repeat of a 2..6-letter unit over the whole length, uniform
+// letters followed by a homopolymer tail of any length (a poly-A tail), or a composition in which one letter
+// makes up nine tenths.
 func DrawSeq(t *rapid.T, name, alpha string, lo, hi int) SeqSpec {
 	n := DrawSize(t, name, lo, hi)
+	if n > 0 && len(alpha) > 1 {
+		letter := func(what string) string {
+			return string(alpha[rapid.IntRange(0, len(alpha)-1).Draw(t, name+what)])
+		}
+		switch rapid.IntRange(0, 17).Draw(t, name+"_shape") {
+		case 0: // tandem repeat (unit of one letter: homopolymer), starting anywhere in the unit
+			unit := ""
+			for k := rapid.SampledFrom([]int{1, 1, 2, 3, 4, 6}).Draw(t, name+"_unit_len"); k > 0; k-- {
+				unit += letter("_unit_letter")
+			}
+			return SeqSpec{Lit: unit[len(unit)-n%len(unit):], Unit: unit, Reps: n / len(unit)}
+		case 1: // uniform letters, then a tail of one letter
+			k := 1 + DrawSize(t, name+"_tail", 0, n-1)
+			return SeqSpec{Fill: rapid.Uint64().Draw(t, name+"_fill"), N: n - k, Alpha: alpha, Unit: letter("_tail_letter"), Reps: k}
+		case 2: // one letter makes up nine tenths
+			return SeqSpec{Fill: rapid.Uint64().Draw(t, name+"_fill"), N: n, Alpha: strings.Repeat(letter("_main_letter"), 9*len(alpha)) + alpha}
+		}
+	}
 	if n > 48 {
 		return SeqSpec{Fill: rapid.Uint64().Draw(t, name+"_fill"), N: n, Alpha: alpha}
 	}
